@@ -1015,6 +1015,10 @@ func c10Games(c *core.Collector, x *Ctx) {
 		v19 := r.Bool()
 		k := 3 + r.Intn(12)
 		hasAge := false
+		coherent := uint16(0)
+		if i%3 == 0 {
+			coherent = core.Pick(r, []uint16{256, 257, 300, 65535, 255, 3})
+		}
 		for q := 0; q < k; q++ {
 			switch r.Intn(6) {
 			case 0:
@@ -1028,7 +1032,12 @@ func c10Games(c *core.Collector, x *Ctx) {
 				continue
 			}
 			sum, no := vals[r.Intn(len(vals))], vals[r.Intn(len(vals))]
-			if r.Chance(1, 2) { // plausible pair
+			if coherent != 0 && r.Chance(3, 4) {
+				// a third of the sequences stick to ONE announced total (often a huge one) for most of their fragments: a transfer of
+				// 256 / 65535 packets that really is open, with later packets of it arriving after the timers have run
+				sum = coherent
+				no = core.Pick(r, []uint16{1, 2, 3, 5, 255, 256, sum})
+			} else if r.Chance(1, 2) { // plausible pair
 				sum = uint16(2 + r.Intn(4))
 				no = uint16(1 + r.Intn(int(sum)))
 			}
